@@ -29,6 +29,9 @@ Definition akids (a : atree) := match a with AN _ _ _ _ k => k end.
 (* defect flag of the pinned tree (probed on the implementation on every run): the GMRES base rule is registered with
    precedence 0 and ties with every rule typed (<kind>, Algorithm) *)
 Variable gmres_amb : bool.
+(* defect flag inv_psd_alg_forwarded_to_factors: true = the pinned tree's factor-wise rules hand the caller's algorithm to every factor;
+   false = the repaired rules: Cholesky / CG requested for a PSD operator reach a factor that is not itself PSD as Auto *)
+Variable fwd_strict : bool.
 (* ---- oracles ---- *)
 Variable lu_o : nat -> fm -> (nat -> nat) * fm * fm.   (* scipy.linalg.lu(a, p_indices=True): a = L[p,:] U *)
 Variable chol_o : nat -> fm -> fm.                     (* numpy.linalg.cholesky *)
@@ -104,6 +107,12 @@ Fixpoint seqres (l : list ires) : ierr + list iop :=
   end.
 Definition lift (f : list iop -> iop) (x : ierr + list iop) : ires := match x with inl k => IErr k | inr rs => IOk (f rs) end.
 
+Definition child_alg (parent_psd : bool) (al : alg) (k : atree) : alg :=
+  if fwd_strict then al
+  else match al with
+       | AChol | ACG => if parent_psd && negb (apsd k) then AAuto else al
+       | _ => al
+       end.
 Fixpoint inv (al : alg) (e : op) (a : atree) {struct e} : ires :=
   match e with
   | Ident n => amb al (IOk (IOp e))
@@ -114,11 +123,11 @@ Fixpoint inv (al : alg) (e : op) (a : atree) {struct e} : ires :=
                | Some lo => amb al (IOk (ITri (nr A) (dat A) lo))
                | None => base al e a
                end
-  | Kron ms => amb al (lift IKron (seqres (zipapp (map (fun m k => inv al m k) ms) (akids a))))
+  | Kron ms => amb al (lift IKron (seqres (zipapp (map (fun m k => inv (child_alg (apsd a) al k) m k) ms) (akids a))))
   | BDiag ms => amb al (lift (fun rs => IBDiag (combine rs (map snd ms)))
-                             (seqres (zipapp (map (fun mc k => inv al (fst mc) k) ms) (akids a))))
+                             (seqres (zipapp (map (fun mc k => inv (child_alg (apsd a) al k) (fst mc) k) ms) (akids a))))
   | Prod ms => if forallb is_sq ms                              (* conditional rule: precedence 0.5, wins over every base rule *)
-               then lift (fun rs => IProd (rev rs)) (seqres (zipapp (map (fun m k => inv al m k) ms) (akids a)))
+               then lift (fun rs => IProd (rev rs)) (seqres (zipapp (map (fun m k => inv (child_alg (apsd a) al k) m k) ms) (akids a)))
                else base al e a
   | _ => base al e a
   end.
